@@ -29,6 +29,7 @@ import (
 	"sync"
 	"sync/atomic"
 	"time"
+	"unsafe"
 
 	"verifharness/hx"
 
@@ -75,6 +76,113 @@ func worldOf(q any) *world {
 	}
 
 	return nil
+}
+
+// chanState reads the state of an element's cancel channel (the one thing the queue does to an element it drops: size
+// bound, CancelPendingElements): closed = cancelled by its owner or dropped by the queue.  The field is written once,
+// before Add returns the handle, and a channel receive is synchronised, so this does not race with the code under
+// test.  ok=false: the field is not there (the code was changed) - the callers fall back to what they did without it.
+func chanState(h *timed.ScheduledTask) (closed, ok bool) {
+	if h == nil {
+		return false, false
+	}
+	f := reflect.ValueOf(h).Elem().FieldByName("cancel")
+	if !f.IsValid() || f.Kind() != reflect.Chan || !f.CanAddr() {
+		return false, false
+	}
+	ch := reflect.NewAt(f.Type(), unsafe.Pointer(f.UnsafeAddr())).Elem()
+	if ch.IsNil() {
+		return false, false
+	}
+	x, sent := ch.TryRecv()
+
+	return x.IsValid() && !sent, true
+}
+
+// closedSet: the tags of the tasks whose cancel channel is closed.  mu held.
+func (w *world) closedSet() (map[int]bool, bool) {
+	set := map[int]bool{}
+	for _, t := range w.tasks {
+		if t.handle == nil {
+			continue
+		}
+		c, ok := chanState(t.handle)
+		if !ok {
+			return nil, false
+		}
+		if c {
+			set[t.tag] = true
+		}
+	}
+
+	return set, true
+}
+
+// maybePopped: a poller may have taken the task out of the heap (the pop hook reports the due time of what is popped;
+// the due time of an ExecuteAfter task is not known exactly).  mu held.
+func (w *world) maybePopped(t *task) bool {
+	if t.after > 0 {
+		return true
+	}
+	w.popMu.Lock()
+	defer w.popMu.Unlock()
+	for _, e := range w.qev {
+		if e.pop && e.due.Equal(t.due) {
+			return true
+		}
+	}
+
+	return false
+}
+
+// dropsOfAdd is the size-bound oracle of one Add (ExecuteAt/ExecuteAfter, raw or tracked), exact and independent of the
+// heap layout: `before` = closed channels before the call, `sizeBefore` = Size() before the call, `old` = the pending
+// task the call replaces (nil: none), t = the new task (handle set).  Every channel that the call closed other than
+// the replaced task's is a drop by the queue; Add may drop one element, and only when the heap already held maxSize
+// elements - a replacement whose old task is still in the heap does not grow the heap.  Returns the number of excused
+// drops.  mu held.
+func (w *world) dropsOfAdd(before map[int]bool, sizeBefore int, old, t *task) int {
+	after, ok := w.closedSet()
+	if !ok || before == nil {
+		if w.m > 0 && sizeBefore >= w.m {
+			return 1
+		}
+
+		return 0
+	}
+	var dropped []int
+	for tag := range after {
+		if !before[tag] && (old == nil || tag != old.tag) {
+			dropped = append(dropped, tag)
+		}
+	}
+	sort.Ints(dropped)
+	heapBefore := sizeBefore
+	oldInHeap := old != nil && !before[old.tag] && !w.maybePopped(old)
+	if oldInHeap {
+		heapBefore--
+	}
+	allowed := 0
+	if w.m > 0 && heapBefore >= w.m {
+		allowed = 1
+	}
+	if len(dropped) > allowed {
+		trig, what := "add", fmt.Sprintf("an Add on a queue holding %d of at most %d elements", heapBefore, w.m)
+		if old != nil {
+			trig = "replacement"
+			what = fmt.Sprintf("ExecuteAt(%d) replacing pending task %d (still in the heap: %v) on a queue holding %d element(s), max size %d", t.id, old.tag, oldInHeap, sizeBefore, w.m)
+		}
+		self := ""
+		for _, d := range dropped {
+			if d == t.tag {
+				self = "; the new task itself was dropped: the identifier has no pending task after re-scheduling"
+			}
+		}
+		w.fail("eventually-delivered", fmt.Sprintf("%s made the queue drop task(s) %v although the size bound was not exceeded%s", what, dropped, self),
+			map[string]string{"oracle": "dropped-within-bound", "trigger": trig})
+	}
+
+	return min(len(dropped), allowed)
 }
 
 func init() {
@@ -341,10 +449,12 @@ func (w *world) execTracked(t *task) string {
 	defer w.regMu.Unlock()
 	sizeBefore := w.te.Size() // not under w.mu: if the queue's lock leaked, only this goroutine must hang
 	w.mu.Lock()
-	if old := w.pendingOf(t.id); old != nil {
+	old := w.pendingOf(t.id)
+	if old != nil {
 		old.replaced = true
 	}
 	replacing := w.pendingOf(t.id) != nil || w.idReg[t.id] != nil
+	closedBefore, _ := w.closedSet()
 	w.mu.Unlock()
 	var h *timed.ScheduledTask
 	cb := w.callback(t)
@@ -393,8 +503,8 @@ func (w *world) execTracked(t *task) string {
 	}
 	t.handle, t.scheduled = h, true
 	w.idReg[t.id] = t
-	if w.m > 0 && sizeBefore >= w.m {
-		w.overflw++
+	if !w.isSD {
+		w.overflw += w.dropsOfAdd(closedBefore, sizeBefore, old, t)
 	}
 
 	return "ok"
@@ -408,6 +518,11 @@ func (w *world) cancelID(id int, fromCallback bool) string {
 	exp := w.pendingOf(id)
 	reg := w.idReg[id]
 	allBlocked := w.blocked == w.w
+	// the queue dropped the task (its channel is closed although nobody cancelled it): Cancel reports false
+	expDropped, observable := false, false
+	if exp != nil {
+		expDropped, observable = chanState(exp.handle)
+	}
 	w.mu.Unlock()
 	got := w.te.Cancel(id)
 	sizeAfter := w.te.Size()
@@ -442,9 +557,9 @@ func (w *world) cancelID(id int, fromCallback bool) string {
 		}
 		w.fail("cancel-result", fmt.Sprintf("Cancel(%d) returned true but the queue size stayed %d while all workers were blocked in callbacks: the task was not pending (max size %d)", id, sizeAfter, w.m),
 			map[string]string{"oracle": "cancel-true-nothing-pending", "trigger": trig})
-	case !got && exp != nil && w.m > 0 && w.overflw > 0:
-		// the size bound may have dropped the task (the queue marks it as canceled, Cancel reports false); which
-		// element was dropped is decided by the heap layout, i.e. by the differential run, not by this oracle
+	case !got && exp != nil && w.m > 0 && (observable && expDropped || !observable && w.overflw > 0):
+		// the size bound dropped the task (the queue marks it as canceled, Cancel reports false); whether that drop
+		// was within the rules is judged where it happened (dropsOfAdd)
 	case !got && exp != nil:
 		trig := "pending"
 		if exp.fromCallback {
@@ -517,7 +632,13 @@ func (w *world) exec(f []string, now int) string {
 		if t.id >= 0 {
 			return w.execTracked(t)
 		}
+		// serialised with the calls that callbacks make (execTracked / cancelID): the drops are attributed per call
+		w.regMu.Lock()
+		defer w.regMu.Unlock()
 		sizeBefore := w.te.Size()
+		w.mu.Lock()
+		closedBefore, _ := w.closedSet()
+		w.mu.Unlock()
 		var h *timed.ScheduledTask
 		cb := w.callback(t)
 		if p := hx.Safely(func() {
@@ -535,8 +656,8 @@ func (w *world) exec(f []string, now int) string {
 		}
 		w.mu.Lock()
 		t.handle, t.scheduled = h, true
-		if w.m > 0 && sizeBefore >= w.m {
-			w.overflw++
+		if !w.isSD {
+			w.overflw += w.dropsOfAdd(closedBefore, sizeBefore, nil, t)
 		}
 		w.mu.Unlock()
 
@@ -580,7 +701,10 @@ func (w *world) exec(f []string, now int) string {
 		w.mu.Unlock()
 
 		return "done"
-	case "shutdown":
+	case "shutdown", "xshutdown":
+		// shutdown: through the TaskExecutor (the promoted method), one flag per argument; xshutdown: on the embedded
+		// Executor, the flags or-ed into one argument.  The two types have one Shutdown.
+		twin := f[0] == "xshutdown"
 		fl := f[1]
 		var flags []timed.ShutdownFlag
 		if strings.Contains(fl, "c") {
@@ -613,7 +737,17 @@ func (w *world) exec(f []string, now int) string {
 		}
 		w.mu.Unlock()
 		go func() {
-			p := hx.Safely(func() { w.te.Shutdown(flags...) })
+			p := hx.Safely(func() {
+				if twin {
+					var all timed.ShutdownFlag
+					for _, x := range flags {
+						all |= x
+					}
+					w.te.Executor.Shutdown(all)
+				} else {
+					w.te.Shutdown(flags...)
+				}
+			})
 			w.mu.Lock()
 			c.ret, c.returned, c.panicked = time.Now(), true, p != ""
 			w.mu.Unlock()
@@ -1181,7 +1315,7 @@ func genCase(rng *hx.Rng) []string {
 			if fl == "" {
 				fl = "-"
 			}
-			lines = append(lines, fmt.Sprintf("%d shutdown %s", clock, fl))
+			lines = append(lines, fmt.Sprintf("%d %s %s", clock, hx.Pick(rng, []string{"shutdown", "xshutdown"}), fl))
 			shut = true
 		case x < 96 && useArm && !armedOne:
 			// park the poller of a raw task in the hook, cancel the element, let the poller go on
@@ -1259,6 +1393,28 @@ func corpus() [][]string {
 		// ExecuteAfter: the due time is the call time plus the delay
 		[]string{"new 1 0", "0 execafter 1 10 5 plain", "2 addafter 11 9 plain", "4 execafter 1 12 3 plain", "end 14"},
 		[]string{"new 2 1", "0 addafter 10 7 block", "2 addafter 11 3 plain", "4 execafter 2 12 9 plain", "6 addafter 13 1 plain", "10 release 10", "end 16"})
+	c = append(c,
+		// re-scheduling an identifier on a full queue: the replaced task leaves the heap before the new one enters it,
+		// so nothing is dropped (a replacement does not change the number of pending tasks) - whether the new task is
+		// due later than everything else (it would sit in the last slot) or earlier (it would push another one there)
+		[]string{"new 1 2", "0 exec 1 10 1 block", "4 exec 2 11 9 plain", "6 exec 3 12 11 plain", "8 exec 3 13 13 plain", "10 release 10", "end 18"},
+		[]string{"new 1 2", "0 exec 1 10 1 block", "4 exec 2 11 9 plain", "6 exec 3 12 11 plain", "8 exec 3 13 7 plain", "10 release 10", "end 18"},
+		[]string{"new 1 1", "0 exec 1 10 1 block", "4 exec 2 11 9 plain", "6 exec 2 12 11 plain", "8 cancel 2", "10 release 10", "end 14"},
+		[]string{"new 1 1", "0 exec 1 10 1 block", "4 exec 2 11 9 plain", "6 exec 2 12 7 plain", "8 exec 2 13 11 plain", "10 release 10", "end 16"},
+		[]string{"new 2 3", "0 exec 1 10 1 block", "2 exec 2 11 1 block", "6 exec 3 12 11 plain", "8 exec 4 13 13 plain", "10 exec 5 14 15 plain",
+			"12 exec 4 15 9 plain", "14 execafter 3 16 5 plain", "16 exec 5 17 21 plain", "18 release 10", "20 release 11", "end 26"},
+		// ... while a genuine overflow still drops the last slot
+		[]string{"new 1 2", "0 exec 1 10 1 block", "4 exec 2 11 9 plain", "6 exec 3 12 11 plain", "8 exec 4 13 7 plain", "10 exec 4 14 13 plain", "12 cancel 2", "14 release 10", "end 20"})
+	// every Shutdown flag combination on both types, with a tracked and a raw task pending (one held by the worker, one
+	// in the heap), a Cancel(id) after the call and a second Shutdown: with DontWaitForShutdown and without
+	// CancelPendingElements the pending tasks still run (at their time, or at once with IgnorePendingTimeouts) and
+	// Cancel(id) of the still pending task returns true
+	for _, fl := range []string{"-", "c", "i", "p", "d", "ci", "cp", "cd", "ip", "id", "pd", "cip", "cid", "cpd", "ipd", "cipd"} {
+		for _, sd := range []string{"shutdown", "xshutdown"} {
+			c = append(c, []string{"new 1 0", "0 exec 1 10 9 plain", "2 add 11 11 plain", "4 exec 2 12 13 plain", "6 " + sd + " " + fl,
+				"8 cancel 2", "10 " + map[string]string{"shutdown": "xshutdown", "xshutdown": "shutdown"}[sd] + " d", "end 18"})
+		}
+	}
 	for i := 0; i < 12; i++ {
 		c = append(c, []string{"new 1 0", "0 arm 10", "2 add 10 1 plain", "4 ecancel 10", "6 release 10", "end 10"})
 	}
@@ -1548,9 +1704,38 @@ func runAddRace(r *rec, sub uint64, workers, reps int) {
 		case <-sdDone:
 		case <-time.After(100 * time.Millisecond):
 		}
+		// lock order: while Shutdown waits for the heap lock (held by the parked adder), more ExecuteAt calls arrive the
+		// moment the lock is released.  One of them usually gets the lock before the woken Shutdown goroutine does and
+		// asks IsShutdown() while holding it - that must not wait for the Shutdown call that waits for the heap lock.
+		var late sync.WaitGroup
+		var lateAccepted atomic.Int32
+		if !g.prelock {
+			var goFlag atomic.Bool
+			for b := 0; b < 4; b++ {
+				late.Add(1)
+				go func() {
+					defer late.Done()
+					for !goFlag.Load() {
+					}
+					for i := 0; i < 20; i++ {
+						if te.Executor.ExecuteAt(func() {}, base.Add(4*time.Millisecond)) == nil {
+							return
+						}
+						lateAccepted.Add(1)
+					}
+				}()
+			}
+			time.Sleep(200 * time.Microsecond)
+			goFlag.Store(true)
+		}
 		close(g.release)
 		accepted := <-res
 		addArmed.Delete(due.UnixNano())
+		if !waitWG(&late, 3*time.Second) {
+			fails = append(fails, finding{"hang", fmt.Sprintf("addrace: Shutdown() waiting for the heap lock held by an Add in progress (workers=%d), 4 goroutines calling ExecuteAt when the lock is released: ExecuteAt did not return within 3s (lock cycle between Shutdown and Add)", workers),
+				map[string]string{"oracle": "hang", "mode": "addrace"}, true})
+		}
+		r.CountN("addrace-late-accepted", int(lateAccepted.Load()))
 		for i := 0; i < 400 && accepted && ran.Load() == 0; i++ {
 			time.Sleep(5 * time.Millisecond)
 		}
@@ -1755,7 +1940,13 @@ func runSdRace(r *rec, sub uint64, workers, adders, reps int) {
 			fails = append(fails, finding{"shutdown-returns", "sdrace: Executor.Shutdown() did not return", map[string]string{"oracle": "shutdown-hang", "mode": "sdrace"}, true})
 		}
 		close(stop)
-		wg.Wait()
+		if !waitWG(&wg, 5*time.Second) {
+			// the adders / cancellers are stuck inside ExecuteAt / Cancel: a lock cycle between Shutdown and Add
+			fails = append(fails, finding{"hang", fmt.Sprintf("sdrace: %d workers, %d adders calling ExecuteAt while Shutdown() is called (round %d): ExecuteAt / Cancel did not return within 5s (Shutdown returned: %v)", workers, adders, rep, !hung),
+				map[string]string{"oracle": "hang", "mode": "sdrace"}, true})
+
+			break
+		}
 		// Shutdown() returned: the workers left after the queue was empty; whatever was accepted has been run,
 		// except for callbacks still in flight - give those a moment
 		for i := 0; i < 200 && !hung && ran.Load() < acc.Load(); i++ {
@@ -2272,9 +2463,17 @@ func runQSess(r *rec, sub uint64, producers, consumers, m int, fl string, reps i
 			}
 			sdAt.Store(us(time.Now()) + 1)
 			logf("shutdown %d %d", b2i(strings.Contains(fl, "c")), b2i(strings.Contains(fl, "i")))
-			q.Shutdown(flags...)
+			if !within(10*time.Second, func() { q.Shutdown(flags...) }) {
+				failf("shutdown-returns", fmt.Sprintf("Queue.Shutdown(%s) called while producers Add and consumers Poll did not return within 10s", fl), "shutdown-hang")
+
+				break
+			}
 		}
-		pwg.Wait()
+		if !waitWG(&pwg, 10*time.Second) {
+			failf("hang", fmt.Sprintf("producers calling Add while Shutdown(%s) is called did not return within 10s", fl), "hang")
+
+			break
+		}
 		if !midway {
 			addFar()
 		}
@@ -2305,8 +2504,10 @@ func runQSess(r *rec, sub uint64, producers, consumers, m int, fl string, reps i
 				it.h.Cancel() // lets go the consumer that holds it
 			}
 		}
-		if !midway {
-			q.Shutdown(flags...)
+		if !midway && !within(10*time.Second, func() { q.Shutdown(flags...) }) {
+			failf("shutdown-returns", fmt.Sprintf("Queue.Shutdown(%s) after the session did not return within 10s", fl), "shutdown-hang")
+
+			break
 		}
 		close(stop)
 		cdone := make(chan struct{})
@@ -2345,16 +2546,6 @@ func runQPanic(r *rec, sub uint64, reps int) {
 	var fails []finding
 	failf := func(oracle, detail, o string) {
 		fails = append(fails, finding{oracle, "qpanic: " + detail, map[string]string{"oracle": o, "mode": "qpanic"}, true})
-	}
-	within := func(d time.Duration, f func()) bool {
-		done := make(chan struct{})
-		go func() { f(); close(done) }()
-		select {
-		case <-done:
-			return true
-		case <-time.After(d):
-			return false
-		}
 	}
 	for rep := 0; rep < reps; rep++ {
 		// bare queue
@@ -2431,6 +2622,31 @@ func runQPanic(r *rec, sub uint64, reps int) {
 	r.Nontrivial("qpanic")
 }
 
+// waitWG waits for the group, but not forever: goroutines stuck inside the code under test (a lock cycle) must become a
+// finding, not a harness that never comes back.
+func waitWG(wg *sync.WaitGroup, d time.Duration) bool {
+	done := make(chan struct{})
+	go func() { wg.Wait(); close(done) }()
+	select {
+	case <-done:
+		return true
+	case <-time.After(d):
+		return false
+	}
+}
+
+// within runs f in a goroutine of its own and reports whether it returned in time.
+func within(d time.Duration, f func()) bool {
+	done := make(chan struct{})
+	go func() { f(); close(done) }()
+	select {
+	case <-done:
+		return true
+	case <-time.After(d):
+		return false
+	}
+}
+
 func b2i(b bool) int {
 	if b {
 		return 1
@@ -2458,7 +2674,7 @@ func emit(r *rec, sub uint64, res caseResult) {
 		if k == "exec" || k == "add" {
 			r.Count("kind:" + strings.Split(f[len(f)-1], ":")[0])
 		}
-		if k == "shutdown" {
+		if k == "shutdown" || k == "xshutdown" {
 			r.Count("flags:" + f[2])
 		}
 		if k == "new" {
